@@ -1,6 +1,7 @@
 mod common;
 mod cursor;
 mod store;
+mod skip;
 mod conc;
 mod table;
 mod sync_replay;
@@ -18,6 +19,7 @@ fn main() {
         "cursor-replay" => cursor::main(&args[2..]),
         "store-run" => store::main(&args[2..]),
         "conc-stress" => conc::main(&args[2..]),
+        "skip-stress" => skip::main(&args[2..]),
         "ingest-stress" => conc::ingest_stress(&args[2..]),
         "lru-replay" => sync_replay::lru(&args[2..]),
         "coalesce-stress" => sync_replay::coalesce(&args[2..]),
